@@ -279,6 +279,12 @@ def r4(ctx, modname):
     ctx.check(ok, R, f"{gen}:init:returns-event-state", m, f.node, "the only exit is `return self._initialised_event.is_set()`", "; ".join(norm_text(r) for r in rets))
     raises = [x for x in walk_no_nested(f.node) if isinstance(x, ast.Raise)]
     ctx.check(not raises, R, f"{gen}:init:never-raises", m, f.node, "no raise statement in init()", f"line {raises[0].lineno}" if raises else "")
+    if gen == "at4":
+        osf = fn_of(ctx, SOCKET, "AirTouchSocket.open_socket")
+        aw = [n for n in osf.cfg.nodes if n.awaits]
+        ctx.check(not aw, R, "socket.open_socket:does-not-wait", osf.module, osf.node, "open_socket() only schedules the connect; it never awaits it (init()'s 5 s budget must also cover a slow or hanging TCP connect)", f"awaits at line {aw[0].lineno}: {norm_text(aw[0].ast)[:70]}" if aw else "")
+        pre = [n for n in f.cfg.nodes if n.awaits and not any(x is n for x, _ in waits)]
+        names = sorted({(dotted(c.func) or "") for n in pre for c in ast.walk(n.ast) if isinstance(c, ast.Call) and isinstance(getattr(c, "func", None), (ast.Attribute, ast.Name))} - {""})
     initf = fn_of(ctx, modname, f"{g['cls']}.initialised")
     rets = [x for x in walk_no_nested(initf.node) if isinstance(x, ast.Return)]
     ctx.check(len(rets) == 1 and norm_text(rets[0].value) == "self._initialised_event.is_set()", R, f"{gen}:initialised", m, initf.node, "initialised == event.is_set()", "; ".join(norm_text(r) for r in rets))
